@@ -419,6 +419,100 @@ pub fn run(r: &Report) {
         r.sample(sub, json!({"input_hex": "9b00", "op": "Vec<u8>", "start_position": 0}));
     }
 
+    // (e) pairs of calls on one decoder: the state closure above rests on "a decoder is (input, position)"
+    {
+        let sub = "e-call-pairs";
+        type DOp = (&'static str, fn(&mut Decoder) -> bool);
+        let dops: Vec<DOp> = vec![
+            ("u8", |d| d.u8().is_ok()),
+            ("i64", |d| d.i64().is_ok()),
+            ("int", |d| d.int().is_ok()),
+            ("f32", |d| d.f32().is_ok()),
+            ("f64", |d| d.f64().is_ok()),
+            ("bool", |d| d.bool().is_ok()),
+            ("null", |d| d.null().is_ok()),
+            ("simple", |d| d.simple().is_ok()),
+            ("char", |d| d.char().is_ok()),
+            ("bytes", |d| d.bytes().is_ok()),
+            ("str", |d| d.str().is_ok()),
+            ("array", |d| d.array().is_ok()),
+            ("map", |d| d.map().is_ok()),
+            ("tag", |d| d.tag().is_ok()),
+            ("datatype", |d| d.datatype().is_ok()),
+            ("skip", |d| d.skip().is_ok()),
+            ("probe+skip", |d| d.probe().skip().is_ok()),
+            ("tokens-first", |d| d.tokens().next().map(|t| t.is_ok()).unwrap_or(false)),
+            ("bytes_iter-first", |d| d.bytes_iter().map(|mut i| i.next().map(|c| c.is_ok()).unwrap_or(true)).unwrap_or(false)),
+            ("str_iter-all", |d| d.str_iter().map(|i| i.take(8).all(|c| c.is_ok())).unwrap_or(false)),
+            ("array_iter<u8>-first", |d| d.array_iter::<u8>().map(|mut i| i.next().map(|c| c.is_ok()).unwrap_or(true)).unwrap_or(false)),
+            ("map_iter<u8,u8>-first", |d| d.map_iter::<u8, u8>().map(|mut i| i.next().map(|c| c.is_ok()).unwrap_or(true)).unwrap_or(false)),
+            ("decode<Option<u8>>", |d| d.decode::<Option<u8>>().is_ok()),
+            ("decode<Vec<u8>>", |d| d.decode::<Vec<u8>>().is_ok()),
+            ("decode<(u8,u8)>", |d| d.decode::<(u8, u8)>().is_ok()),
+            ("decode<String>", |d| d.decode::<String>().is_ok()),
+        ];
+        let maxlen = if thorough { 3usize } else { 2usize };
+        r.space(sub, true, &format!("all byte strings of length <= {} x all ordered pairs of {} calls on ONE decoder: the second call must behave exactly (Ok/Err, end position) as the same call on a fresh decoder set to the position the first call left - no hidden state, probe() leaves the parent untouched", maxlen, dops.len()), 2);
+        let shards = 256usize;
+        mcx::par::run_shards(
+            shards,
+            |s| {
+                let mut calls = 0u64;
+                let mut agree = 0u64;
+                let mut oks = 0u64;
+                for n in 0..=maxlen {
+                    for_each_bytes(n, if n == 0 { if s == 0 { 0..1 } else { 0..0 } } else { s..s + 1 }, |b| {
+                        mcx::slot::case("call-pair", b);
+                        for (n1, f1) in &dops {
+                            let first = mcx::par::guard(|| {
+                                let mut d = Decoder::new(b);
+                                let ok1 = f1(&mut d);
+                                (ok1, d.position())
+                            });
+                            let (_, p1) = match first {
+                                Ok(x) => x,
+                                Err(p) => {
+                                    r.fail(sub, None, json!({"input_hex": hex(b), "first": n1}), format!("panicked: {}", p));
+                                    continue;
+                                }
+                            };
+                            for (n2, f2) in &dops {
+                                calls += 1;
+                                let seq = mcx::par::guard(|| {
+                                    let mut d = Decoder::new(b);
+                                    let _ = f1(&mut d);
+                                    let ok2 = f2(&mut d);
+                                    (ok2, d.position())
+                                });
+                                let fresh = mcx::par::guard(|| {
+                                    let mut d = Decoder::new(b);
+                                    d.set_position(p1);
+                                    let ok2 = f2(&mut d);
+                                    (ok2, d.position())
+                                });
+                                match (seq, fresh) {
+                                    (Ok(a), Ok(c)) if a == c => {
+                                        agree += 1;
+                                        if a.0 {
+                                            oks += 1;
+                                        }
+                                    }
+                                    (a, c) => r.fail(sub, None, json!({"input_hex": hex(b), "first": n1, "second": n2, "position_after_first": p1}), format!("after {} the call {} gave (ok, position) = {:?}; on a fresh decoder at position {} it gives {:?}", n1, n2, a, p1, c)),
+                                }
+                            }
+                        }
+                    });
+                }
+                r.add(sub, calls, agree);
+                r.add_states(sub, calls, calls * 2);
+                r.outcome(sub, "second call Ok", oks);
+                r.outcome(sub, "second call Err", agree - oks);
+            },
+            crate::hang_handler(r.property.clone()),
+        );
+        r.sample(sub, json!({"input_hex": "8201", "first": "array", "second": "u8"}));
+    }
+
     // (b) hostile heads
     {
         let sub = "b-hostile-heads";
